@@ -32,7 +32,7 @@ def harnesses(ctx, tier):
         Harness(name="H1_elf_str_table_entry", src="c06/elf_strtab.c", includes=inc, unwind=10, timeout=300,
                 desc="elf.c str_table_entry + is_valid_ptr on an arbitrary (possibly empty / inverted / ending at the end of the data) table window and index",
                 bounds="8-byte object, base/limit anywhere in it, index any int", functions=["str_table_entry", "is_valid_ptr"], stubs=["strnlen: loop model"]),
-        Harness(name="H2_pe_parse_exports", src="c06/pe_exports.c", includes=inc, defines=["-DVF_K=%d" % K], unwind=K + 2, timeout=600, mem_gb=16,
+        Harness(name="H2_pe_parse_exports", src="c06/pe_exports.c", includes=inc, defines=["-DVF_K=%d" % K], unwind=K + 4, timeout=900, mem_gb=16,
                 unwind_funcs={"main": 60},
                 desc="pe.c pe_parse_exports on 176 data bytes with a symbolic export directory, symbolic tables and arbitrary RVAs",
                 bounds="176 bytes, <= %d functions / names" % K,
